@@ -138,7 +138,7 @@ def main(tier):
     prog = H.get_program()
     rng = H.rng(PROP)
     cfg = C.config_consts(prog)
-    D = 8 if tier == 'quick' else 20
+    D = 10 if tier == 'quick' else 20
     tasks = []
     for fn in FNS:
         for L in range(0, D + 1):
